@@ -190,7 +190,7 @@ pub fn run(ctx: &Ctx) -> Outcome {
         describe = format!("all common-syntax trees of <= 3 nodes ({})", patterns.len());
     }
     let texts = gen::texts(&["a", "A", "b", " ", "\n", "é"], 3);
-    let acc = par_run(&patterns, true, Some(50_000_000), |_, p, acc| {
+    let acc = par_run(&patterns, true, Some(2_000_000), |_, p, acc| {
         let s = p.print();
         let fr = compile(&s);
         let rr = catch_unwind(AssertUnwindSafe(|| regex::Regex::new(&s)));
